@@ -20,26 +20,26 @@ Proof.
   - intros H. destruct (child_outs_all_done _ _ H) as [os ->]. discriminate.
 Qed.
 
-Lemma multi_quiescent_exact ins children es :
+Lemma multi_quiescent_exact qs ins children es :
   Forall (fun c => c < length ins) children ->
-  let w := m_run (m_create ins children) es in
+  let w := m_run (m_create qs ins children) es in
   ~ In CancelOut es -> m_ready w = [] ->
   (forall c, In c children -> isdone (final_ins ins es) c = true) ->
   m_out w = expected (final_ins ins es) children /\ m_out w <> None.
 Proof.
   simpl. intros B NC Q AD.
   assert (E : expected (final_ins ins es) children <> None) by (apply expected_iff_all_done; auto).
-  pose proof (multi_live ins children B es Q E) as L.
-  destruct (m_out (m_run (m_create ins children) es)) as [o|] eqn:O; [|congruence].
-  destruct (multi_safe ins children B es o O) as [[_ X]|X]; [contradiction|]. split; congruence.
+  pose proof (multi_live qs ins children B es Q E) as L.
+  destruct (m_out (m_run (m_create qs ins children) es)) as [o|] eqn:O; [|congruence].
+  destruct (multi_safe qs ins children B es o O) as [[_ X]|X]; [contradiction|]. split; congruence.
 Qed.
 
-Lemma multi_not_early ins children es o :
+Lemma multi_not_early qs ins children es o :
   Forall (fun c => c < length ins) children ->
-  m_out (m_run (m_create ins children) es) = Some o -> o <> Cancelled ->
+  m_out (m_run (m_create qs ins children) es) = Some o -> o <> Cancelled ->
   forall c, In c children -> isdone (final_ins ins es) c = true.
 Proof.
-  intros B O NC. destruct (multi_safe ins children B es o O) as [[X _]|X]; [congruence|].
+  intros B O NC. destruct (multi_safe qs ins children B es o O) as [[X _]|X]; [congruence|].
   apply expected_iff_all_done. congruence.
 Qed.
 
@@ -51,26 +51,26 @@ Proof.
   destruct S as [S|[S _]]; auto. exfalso. apply (L A Q). congruence.
 Qed.
 
-Lemma timeout_quiescent_exact a0 es :
-  let w := t_run (t_create a0) es in
+Lemma timeout_quiescent_exact qs a0 es :
+  let w := t_run (t_create qs a0) es in
   ~ In CancelOut es -> t_ready w = [] -> race a0 es <> Undecided ->
   t_r w = v_outcome (race a0 es).
 Proof.
-  simpl. intros NC Q V. destruct (timeout_correct a0 es) as [_ [_ [S L]]]. simpl in *.
-  destruct (t_r (t_run (t_create a0) es)) as [o|] eqn:R.
+  simpl. intros NC Q V. destruct (timeout_correct qs a0 es) as [_ [_ [S L]]]. simpl in *.
+  destruct (t_r (t_run (t_create qs a0) es)) as [o|] eqn:R.
   - destruct (S o eq_refl) as [X|[_ X]]; auto. contradiction.
   - exfalso. apply (L Q V). reflexivity.
 Qed.
 
-Lemma timeout_settles a0 es :
-  let w := t_run (t_create a0) es in
+Lemma timeout_settles qs a0 es :
+  let w := t_run (t_create qs a0) es in
   race a0 es <> Undecided -> t_r (t_run w (repeat Step (length (t_ready w)))) <> None.
 Proof.
   simpl. intros V.
-  set (k := length (t_ready (t_run (t_create a0) es))).
-  assert (E : t_run (t_run (t_create a0) es) (repeat Step k) = t_run (t_create a0) (es ++ repeat Step k)).
+  set (k := length (t_ready (t_run (t_create qs a0) es))).
+  assert (E : t_run (t_run (t_create qs a0) es) (repeat Step k) = t_run (t_create qs a0) (es ++ repeat Step k)).
   { unfold t_run. rewrite fold_left_app. reflexivity. }
-  rewrite E. destruct (timeout_correct a0 (es ++ repeat Step k)) as [_ [_ [_ L]]]. simpl in L. apply L.
+  rewrite E. destruct (timeout_correct qs a0 (es ++ repeat Step k)) as [_ [_ [_ L]]]. simpl in L. apply L.
   - rewrite <- E. apply t_drain. unfold k. lia.
   - unfold race in *. rewrite fold_left_app.
     assert (F : forall n v, fold_left v_step (repeat Step n) v = v).
@@ -104,3 +104,45 @@ Example timeout_verdict_example :
   race None [Step; Complete 1 (Res 0%N); TimerFire; Complete 0 (Res 1%N)] = ByTimer /\
   race None [CancelOut; Complete 0 Cancelled; TimerFire] = ByInput Cancelled.
 Proof. split; reflexivity. Qed.
+
+(* the dict form: every key is paired with the result of its own child *)
+Lemma gather_res_map os l : gather os = Res l -> os = map Res l.
+Proof.
+  revert l; induction os as [|o os IH]; intros l H; simpl in H.
+  - inversion H; reflexivity.
+  - destruct o; try discriminate. destruct (gather os) eqn:G; try discriminate.
+    inversion H; subst. simpl. rewrite (IH _ eq_refl). reflexivity.
+Qed.
+Lemma child_outs_nth ins cs os :
+  child_outs ins cs = Some os ->
+  length os = length cs /\ forall i c, nth_error cs i = Some c -> exists o, nth_error os i = Some o /\ nth_error ins c = Some (Some o).
+Proof.
+  revert os; induction cs as [|a cs IH]; intros os H; simpl in H.
+  - inversion H; subst. split; auto. intros [|i] c X; discriminate.
+  - destruct (nth_error ins a) as [[o|]|] eqn:E; try discriminate.
+    destruct (child_outs ins cs) as [os'|] eqn:E2; try discriminate. inversion H; subst.
+    destruct (IH _ eq_refl) as [L N]. split; [simpl; congruence|].
+    intros [|i] c X; simpl in *.
+    + inversion X; subst. eauto.
+    + apply N; auto.
+Qed.
+Lemma multi_dict_result ins keys children l :
+  length keys = length children ->
+  expected ins children = Some (Res l) ->
+  dict_view keys (Res l) = Res (combine keys l) /\ map fst (combine keys l) = keys /\
+  forall i k c, nth_error keys i = Some k -> nth_error children i = Some c ->
+    exists v, nth_error (combine keys l) i = Some (k, v) /\ nth_error ins c = Some (Some (Res v)).
+Proof.
+  intros LK E. unfold expected in E. destruct (child_outs ins children) as [os|] eqn:CO; try discriminate.
+  assert (G : gather os = Res l) by (simpl in E; congruence). clear E. apply gather_res_map in G. subst os.
+  destruct (child_outs_nth _ _ _ CO) as [L N]. rewrite map_length in L.
+  split; [reflexivity|]. split.
+  - clear -LK L. revert l L keys LK. induction children as [|c cs IH]; intros [|v l] L [|k ks] LK; simpl in *; try discriminate; auto.
+    f_equal. apply IH; auto.
+  - intros i k c Hk Hc. destruct (N i c Hc) as [o [O1 O2]].
+    rewrite nth_error_map in O1. destruct (nth_error l i) as [v|] eqn:V; try discriminate.
+    inversion O1; subst. exists v. split; auto.
+    clear -Hk V. revert keys l Hk V. induction i as [|i IH]; intros [|k' ks] [|v' l] Hk V; simpl in *; try discriminate.
+    + inversion Hk; inversion V; subst; auto.
+    + apply IH; auto.
+Qed.
